@@ -21,6 +21,7 @@ func init() {
 		Level: "model_checking",
 		Rule: "all (sequence of length 0..N, start, stop, step) with bounds in {nil} U [-N-2,N+2] U int64 extremes and steps {nil,0,+-1,+-2,+-3,+-(N+1),extremes}, and all single indices, " +
 			"for arrays of distinct ints, ASCII strings, multi-byte strings, and strings of code points that share their low byte / low 16 bits with those ASCII letters (run before and after the ASCII ones in the same process); Arr#at/Str#at called directly (and through source for N<=3) and compared with a bignum reference slice; " +
+			"history: strs of length 1,2,3,5 of each kind first used by one of 18 other operations (_incBy, start of an iterated range, len, ord, iteration, +, ==, hashing as a map key, ...) and then indexed at both ends and sliced; " +
 			"non-trivial = the reference result is non-empty or an error, or a bound is out of range; distinct = distinct (kind,n,start,stop,step)",
 		Assumptions: []string{
 			"reference = Python slice.indices semantics computed with math/big positions",
@@ -39,6 +40,7 @@ type tcase struct {
 	Stop  *int64 `json:"stop"`
 	Step  *int64 `json:"step"`
 	Mode  string `json:"mode"`
+	Pre   int    `json:"pre,omitempty"` // history mode: index of the operation applied to the str before it is indexed
 }
 
 var multi = []rune{'é', '日', '𝄞', 'a', 'ß', '語', '😀', 'z', 'Ω'}
@@ -382,6 +384,59 @@ func run(c *core.Ctx) {
 			emit(t)
 		}
 	}, func(t tcase) string { return t.src() }, func(t tcase, o panrun.Obs) { i++; e.judge(t, o) })
+	// history: the same str object is first used by another operation (incremented, iterated as the start of a
+	// range, measured, compared, hashed, ...), then indexed at its ends and sliced
+	tk.Batched(c, 500, "", func(emit func(tcase)) {
+		for _, kind := range []string{"ascii", "multi", "lowbyte"} {
+			for _, n := range []int{1, 2, 3, 5} {
+				for p := range preOps {
+					emit(tcase{Kind: kind, N: n, Mode: "history", Pre: p})
+				}
+			}
+		}
+	}, histSrc, func(t tcase, o panrun.Obs) { e.judgeHist(t, o) })
+}
+
+// ---------------------------------------------------------------- history: the str is used by other operations first
+
+var preOps = []string{"s._incBy(1)", "(s:s._incBy(3)).A", "(s:s._incBy(2))@{|c| c}", "s.len", "s.ord", "s@{|c| c}", "s.A", "s + \"x\"", "s.uc", "s == s", "s.S", "s.repr", "s * 2", "s[0]", "s[::-1]", "%{s: 1}[s]", "s.lc", "s <=> s"}
+
+func histSrc(t tcase) string {
+	n := t.N
+	return fmt.Sprintf("s := %s\nnil.try.{|u| %s}\n[s[0], s[-1], s[%d], s[:], s[::-1], s[1:], s[:-1], s[-1:], s[%d], s[-%d:%d], s]", t.recvSrc(), preOps[t.Pre], n-1, n, n, n)
+}
+
+func histExpect(t tcase) string {
+	r := seqRunes(t.Kind, t.N)
+	q := func(x []rune) string { return fmt.Sprintf("%q", string(x)) }
+	rev := make([]rune, len(r))
+	for i := range r {
+		rev[len(r)-1-i] = r[i]
+	}
+	n := len(r)
+	parts := []string{q(r[0:1]), q(r[n-1:]), q(r[n-1:]), q(r), q(rev), q(r[1:]), q(r[:n-1]), q(r[n-1:]), "nil", q(r), q(r)}
+	return "[" + strings.Join(parts, ", ") + "]"
+}
+
+func (e *env) judgeHist(t tcase, o panrun.Obs) {
+	c := e.c
+	c.Eval(1)
+	c.Validated(1)
+	c.Nontrivial(1)
+	if o.Kind == "syntax" {
+		c.HarnessError("history case does not parse: %s: %s", histSrc(t), o.ErrMsg)
+		return
+	}
+	want := histExpect(t)
+	c.Outcome("history:" + o.Kind)
+	if o.Kind == "value" && o.Repr == want {
+		return
+	}
+	op := preOps[t.Pre]
+	if i := strings.IndexAny(op, "( "); i > 0 && strings.HasPrefix(op, "s.") {
+		op = op[:i]
+	}
+	c.Violation(core.Violation{Key: "str/after-earlier-use/" + op, Case: core.JSON(t), Desc: strings.ReplaceAll(histSrc(t), "\n", "; "), Expected: want, Observed: o.Short(), Repro: "(" + strings.ReplaceAll(histSrc(t), "\n", "; ") + ").p\n"})
 }
 
 func replay(c *core.Ctx, raw json.RawMessage) {
@@ -391,6 +446,11 @@ func replay(c *core.Ctx, raw json.RawMessage) {
 		return
 	}
 	e := newEnv(c)
+	if t.Mode == "history" {
+		obs := c.R().Thunks("", []string{histSrc(t)}, "")
+		e.judgeHist(t, obs[0])
+		return
+	}
 	if t.Mode == "source" {
 		obs := c.R().Thunks("", []string{t.src()}, "")
 		e.judge(t, obs[0])
